@@ -66,8 +66,28 @@ def run(c, replay):
             nrun += 1
             if res.sanitizer:
                 fired(res, text, dict(mode=mode, cmd=res.cmd))
+    # ---- everything at virtual time 0 on several threads, with legal preemptions between the flag handshake and the straggler test of process_msg
+    # (scheduling point 33): a straggler cancelled by its sender in that window must not be ordered before LP_INIT (finding F17)
+    from concurrent.futures import ThreadPoolExecutor
+    t0jobs = []
+    for k in range(24 if c.tier == "quick" else 240):
+        p = progen.gen_time0_program(r)
+        p["stopat"] = (p["stopat"][0], r.range(200, 3000))
+        text = progen.render(p)
+        pf = os.path.join(ctx["sd"], "c11t0_%d.txt" % k)
+        open(pf, "w").write(text)
+        t0jobs.append((text, pf, r.choice([3, 4, 4, 6]), r.choice([1, 2, 5]), r.choice([0, 100, 1000]), "33,-1,%d,%d" % (r.choice([100, 300, 600]), r.choice([2, 3, 5]))))
+
+    def t0_one(job):
+        text, pf, th, ck, gp, delay = job
+        return job, S.run_sim(ctx["exe"], pf, threads=th, ckpt=ck, gvt=gp, watchdog=15, timeout=40, delay=delay)
+    with ThreadPoolExecutor(6) as ex:
+        for (text, pf, th, ck, gp, delay), res in ex.map(t0_one, t0jobs):
+            nrun += 1
+            if res.sanitizer:
+                fired(res, text, dict(threads=th, checkpoint_interval=ck, gvt_period_us=gp, injected_delay=delay, cmd=res.cmd, what="events at virtual time 0, preemption at point 33"))
     C.finish(c, ctx)
-    c.cov.update(evaluations=nrun, distinct_nontrivial=nrun, sanitizer_runs=nrun,
+    c.cov.update(evaluations=nrun, distinct_nontrivial=nrun, sanitizer_runs=nrun, time0_preempted_runs=len(t0jobs),
                  rule="every driver built with -fsanitize=address,undefined -fno-sanitize-recover=undefined: numerical library on crafted generator states, allocator operation "
                       "sequences, serial / parallel / 2..3-rank / LP-level / cooperatively scheduled simulations of generated programs (payloads beyond 32 bytes pending at shutdown, "
                       "RootsimStop, statistics files); non-trivial = execution",
